@@ -27,7 +27,8 @@ CONSTANTS Procs,        \* goroutines
           LimitMenu,    \* values SetLimit may store
           LookupExtra,  \* extra names looked up (e.g. a missing one)
           Hist,         \* TRUE: record the behaviour in hist (for replay)
-          DupLast       \* TRUE: the last extension id is registered under the SAME type string as the first one
+          DupAt         \* 0: every extension has its own type string; 99: the LAST extension is registered under the
+                        \* same string as the first one; k >= 2: the k-th is (later ones can then be attached to either)
 
 Inputs == {"x1", "x2", "x3"}
 Builtin == {"root", "bin", "binc", "txt", "tj"}
@@ -54,8 +55,9 @@ InitParent == [n \in Nodes |-> CASE n \in {"bin", "txt"} -> "root" [] n = "binc"
 
 Attached(n) == n \in Builtin \/ parent[n] # "none"
 Acc(n, x, l) == IF n \in ExtSet THEN x \in eacc[n] ELSE BAcc(n, x, l)
-\* the registered type string of a node: its id, except that (DupLast) the last extension re-uses the first one's
-Name(n) == IF DupLast /\ Len(Exts) > 1 /\ n = Exts[Len(Exts)] THEN Exts[1] ELSE n
+\* the registered type string of a node: its id, except that (DupAt) one later extension re-uses the first one's
+DupIdx == IF DupAt = 99 THEN Len(Exts) ELSE DupAt
+Name(n) == IF DupIdx > 1 /\ Len(Exts) >= DupIdx /\ n = Exts[DupIdx] THEN Exts[1] ELSE n
 NamesOf(n) == <<Name(n)>> \o (IF n \in ExtSet THEN ealias[n] ELSE <<>>)
 
 (* ------------- reference: first-match deepest path (from the statement of C03) ------------- *)
